@@ -116,7 +116,7 @@ def compileRule (n : CNode) : Rule :=
   let (addr, bits) :=
     match kidValue n "address" with
     | some v =>
-      match Addr.pton v true false with
+      match ptonC v true with
       | .ok res => (res.addr, res.bits.getD 0)
       | .error _ => (Addr.Addr.zero, 0)
     | none => (Addr.Addr.zero, 0)
@@ -146,7 +146,7 @@ def portOf (arg : Bytes) : Nat := ((strtol 10 arg).1 % 65536).toNat
 
 /-- `parse_new_client` with `argc ≥ 5` -/
 def newClient (s : State) (id : Int) (addrText portText : Bytes) : M (State × List Bytes) := do
-  let res ← match Addr.pton addrText false false with
+  let res ← match ptonC addrText false with
     | .ok r => pure r
     | .error _ => throw (Fault.assertFail "irc_pton touched memory outside its arguments")
   let serial := (s.serial + 1) % 4294967296
@@ -158,7 +158,7 @@ def newClient (s : State) (id : Int) (addrText portText : Bytes) : M (State × L
     | none => stats
   let r : Req := {
     client := id, serial := serial, addr := res.addr, port := portOf portText,
-    textAddr := (Addr.ntop res.addr 40).1,
+    textAddr := ntopC res.addr,
     timer := if s.timeout > 0 then .armed else .none }
   let (r, stats) := if s.hasXq then ({ r with xq := some {} }, { stats with cliAllocs := stats.cliAllocs + 1 }) else (r, stats)
   pure ({ s with serial := serial, stats := stats, reqs := insertReq r s.reqs }, [])
@@ -229,66 +229,82 @@ def validateRequest (s : State) (tag : Bytes) : Option Req :=
 
 def arg (l : Line) (i : Nat) : Option Bytes := l.argv[i]?
 
+/-- "ircd sent garbage": a per-client command with id -1 -/
+def garbage (s : State) (c : String) : M (State × List Bytes) :=
+  pure (s, [sendOpers (b ("ircd sent garbage: -1 " ++ c ++ " ..."))])
+
+/-- deliver a server event to the looked-up request -/
+def onReq (s : State) (req? : Option Req) (c : String) (ev : Ev) : M (State × List Bytes) :=
+  match req? with
+  | none => garbage s c
+  | some r => withReq s r fun ctx => reqEvent s.static ctx ev
+
+/-- D / T: the request goes away -/
+def dropReq (s : State) (req? : Option Req) (c : String) : M (State × List Bytes) :=
+  match req? with
+  | none => garbage s c
+  | some r => withReq s r fun ctx => pure (finishReq ctx)
+
+/-- X / x -/
+def onReply (s : State) (l : Line) (isX : Bool) : M (State × List Bytes) :=
+  if l.argv.length < 4 || !s.hasXq then pure (s, [])
+  else
+    match validateRequest s ((arg l 2).getD []) with
+    | none => pure (s, [])
+    | some r =>
+      withReq s r fun ctx => xqReply s.static ctx ((arg l 1).getD []) (if isX then arg l 3 else none)
+
+/-- `?` -/
+def onInfo (s : State) (l : Line) : M (State × List Bytes) :=
+  if l.argv.length < 2 then pure (s, [])
+  else
+    let what := (arg l 1).getD []
+    if what == b "config" then pure (s, collectConfig s)
+    else if what == b "stats" then pure (s, collectStats s false)
+    else if what == b "stats2" then pure (s, collectStats s true)
+    else pure (s, [])
+
+/-- the `switch (argv[0][0])` of `iauth_read` -/
+def dispatch (s : State) (l : Line) (cmd : UInt8) (req? : Option Req) : M (State × List Bytes) :=
+  let argc := l.argv.length
+  if cmd == 67 then                                   -- 'C'
+    if argc < 5 then pure (s, [])
+    else newClient s l.id ((arg l 1).getD []) ((arg l 2).getD [])
+  else if cmd == 68 then dropReq s req? "D"           -- 'D'
+  else if cmd == 78 then                              -- 'N'
+    if req?.isSome && argc < 2 then pure (s, [])
+    else onReq s req? "N" (.hostname (if req?.isSome then some ((arg l 1).getD []) else arg l 1))
+  else if cmd == 100 then onReq s req? "d" .noHostname
+  else if cmd == 80 then                              -- 'P'
+    if req?.isSome && argc < 2 then pure (s, [])
+    else onReq s req? "P" (.password (if req?.isSome then some ((arg l 1).getD []) else arg l 1))
+  else if cmd == 85 then                              -- 'U'
+    match req? with
+    | none => garbage s "U"
+    | some r =>
+      if argc < 3 then pure (s, [sendOpers (b "ircd sent garbage: <id> U without realname")])
+      else withReq s r fun ctx => reqEvent s.static ctx (.userInfo ((arg l 1).getD []) ((arg l 2).getD []))
+  else if cmd == 117 then onReq s req? "u" (.ident (arg l 1))
+  else if cmd == 110 then                             -- 'n'
+    if req?.isSome && argc < 2 then pure (s, [])
+    else onReq s req? "n" (.nick (if req?.isSome then some ((arg l 1).getD []) else arg l 1))
+  else if cmd == 72 then onReq s req? "H" .hurry
+  else if cmd == 84 then dropReq s req? "T"
+  else if cmd == 88 then onReply s l true
+  else if cmd == 120 then onReply s l false
+  else if cmd == 63 then onInfo s l
+  else pure (s, [])                                   -- E, M and unknown letters
+
 /-- one complete input line (already cut at its first NUL) -/
-def stepLine (s : State) (raw : Bytes) : M (State × List Bytes) := do
+def stepLine (s : State) (raw : Bytes) : M (State × List Bytes) :=
   let l := tokenize raw
   match l.argv with
   | [] => pure (s, [])                                   -- nothing but an id / blanks
   | a0 :: _ =>
     let cmd := a0.getD 0 0      -- argv[0][0]; an empty argv[0] (":" alone) reads the NUL
-    let argc := l.argv.length
     let req? := if l.id == -1 || cmd == 67 then none else findReq s.reqs l.id
     if l.id != -1 && cmd != 67 && req?.isNone then pure (s, [])
-    else
-      let garbage (c : String) : M (State × List Bytes) :=
-        pure (s, [sendOpers (b ("ircd sent garbage: -1 " ++ c ++ " ..."))])
-      let onReq (c : String) (ev : Ev) : M (State × List Bytes) :=
-        match req? with
-        | none => garbage c
-        | some r => withReq s r fun ctx => reqEvent s.static ctx ev
-      if cmd == 67 then                                   -- 'C'
-        if argc < 5 then pure (s, [])
-        else newClient s l.id ((arg l 1).getD []) ((arg l 2).getD [])
-      else if cmd == 68 then                              -- 'D'
-        match req? with
-        | none => garbage "D"
-        | some r => withReq s r fun ctx => pure (finishReq ctx)
-      else if cmd == 78 then                              -- 'N'
-        if req?.isSome && argc < 2 then pure (s, []) else onReq "N" (.hostname (arg l 1))
-      else if cmd == 100 then onReq "d" .noHostname       -- 'd'
-      else if cmd == 80 then                              -- 'P'
-        if req?.isSome && argc < 2 then pure (s, []) else onReq "P" (.password (arg l 1))
-      else if cmd == 85 then                              -- 'U'
-        match req? with
-        | none => garbage "U"
-        | some r =>
-          if argc < 3 then pure (s, [sendOpers (b "ircd sent garbage: <id> U without realname")])
-          else withReq s r fun ctx => reqEvent s.static ctx (.userInfo ((arg l 1).getD []) ((arg l 2).getD []))
-      else if cmd == 117 then onReq "u" (.ident (arg l 1))  -- 'u'
-      else if cmd == 110 then                             -- 'n'
-        if req?.isSome && argc < 2 then pure (s, []) else onReq "n" (.nick (arg l 1))
-      else if cmd == 72 then onReq "H" .hurry             -- 'H'
-      else if cmd == 84 then                              -- 'T'
-        match req? with
-        | none => garbage "T"
-        | some r => withReq s r fun ctx => pure (finishReq ctx)
-      else if cmd == 88 || cmd == 120 then                -- 'X' / 'x'
-        if argc < 4 || !s.hasXq then pure (s, [])
-        else
-          match validateRequest s ((arg l 2).getD []) with
-          | none => pure (s, [])
-          | some r =>
-            withReq s r fun ctx =>
-              xqReply s.static ctx ((arg l 1).getD []) (if cmd == 88 then arg l 3 else none)
-      else if cmd == 63 then                              -- '?'
-        if argc < 2 then pure (s, [])
-        else
-          let what := (arg l 1).getD []
-          if what == b "config" then pure (s, collectConfig s)
-          else if what == b "stats" then pure (s, collectStats s false)
-          else if what == b "stats2" then pure (s, collectStats s true)
-          else pure (s, [])
-      else pure (s, [])                                    -- E, M and unknown letters
+    else dispatch s l cmd req?
 
 /-- the request's one-shot timer fires -/
 def stepTimeout (s : State) (id : Int) : M (State × List Bytes × Bool) :=
@@ -300,17 +316,21 @@ def stepTimeout (s : State) (id : Int) : M (State × List Bytes × Bool) :=
     else pure (s, [], false)
   | none => pure (s, [], false)
 
+/-- the `while ((line = evbuffer_readln(...)))` loop over complete lines: empty lines are
+    skipped, every other line is a C string (cut at its first NUL) -/
+def stepLines : State → List Bytes → M (State × List Bytes)
+  | s, [] => pure (s, [])
+  | s, ln :: rest =>
+    if ln.isEmpty then stepLines s rest
+    else do
+      let (s1, o1) ← stepLine s (cstr ln)
+      let (s2, o2) ← stepLines s1 rest
+      pure (s2, o1 ++ o2)
+
 /-- feed a chunk of bytes (`evbuffer_read` + the `evbuffer_readln` loop) -/
-def stepChunk (s : State) (chunk : Bytes) : M (State × List Bytes) := do
+def stepChunk (s : State) (chunk : Bytes) : M (State × List Bytes) :=
   let (lines, tail) := splitLines (s.inbuf ++ chunk)
-  let mut st := { s with inbuf := tail }
-  let mut out : List Bytes := []
-  for ln in lines do
-    if ln.isEmpty then continue
-    let (s', o) ← stepLine st (cstr ln)
-    st := s'
-    out := out ++ o
-  pure (st, out)
+  stepLines { s with inbuf := tail } lines
 
 /-- install a configuration (first load or reload): deliver the sections to the modules
     whose section changed -/
